@@ -5,7 +5,7 @@
    request: at most one delivery per send); crash = [ECrash]. [hasm s T] = T's mutations were logged,
    [classic s T] = T never used async commit / 1PC (then no resolve of T can be derived from the
    CheckSecondaryLocks fold: Inv.classic_flags). [F s T FTold] = 1 / 2 / 3 for Commit returning nil / undetermined / error. *)
-From Verif Require Import Percolator.Async8 Percolator.Trace Percolator.ProofsTrace Percolator.AddKeys Percolator.Heartbeat.
+From Verif Require Import Percolator.Async8 Percolator.Closed Percolator.Trace Percolator.ProofsTrace Percolator.AddKeys Percolator.Heartbeat.
 From Coq Require Import Sorting.Sorted Permutation.
 
 (* ---------------- C02: crash atomicity (classic 2PC, optimistic and pessimistic prewrite) ---------------- *)
@@ -127,6 +127,25 @@ Proof.
   - eapply km_rolledback; eauto.
 Qed.
 Print Assumptions C02_atomic_fallback_partial.
+
+(* ... and, in EVERY commit mode (fallen back or not), the owner's own commit point is closed by a definite error:
+   commit requests containing the primary are delivered at most once each, so when all of them were refused
+   (none sent included: e.g. an async-commit transaction that fell back and failed during prewrite) none has
+   succeeded or will ever succeed. What is not proved for fallen-back transactions is that no RESOLVER commits
+   them through the CheckSecondaryLocks fold (see docs/PERC_EVENTS.md, "not covered"). *)
+Theorem C02_fallback_owner_closed : forall evs s T, run evs = Some s -> hasm s T -> F s T FTold = 3 ->
+  F s T FPcNeg = F s T FPcSent ->
+  forall evs' s', run_from s evs' = Some s' ->
+    F s' T FTold = 3 /\ forall r c ks, In (ECmReply r T c ks CmOk) (s_dlv s') -> ~ In (prim s T) ks.
+Proof.
+  intros evs s T R Hm Ht Hn evs' s' R'. destruct (inv_run evs s R T) as [G _].
+  assert (Hd : F s T FDead <> 0) by (apply (g_told_dead _ _ G); auto).
+  destruct (closed_run_from evs' s s' T (inv_run _ _ R) (pcinv_run _ _ T R) Hm Hd Hn R') as [Hm' [Ep [_ [_ [P' Z]]]]].
+  destruct (run_from_frozen _ _ _ T R') as [Fz _]. split.
+  - destruct Fz as [E _]; [rewrite Ht; discriminate | congruence].
+  - intros r c ks Hi Hp. rewrite <- Ep in Hp. apply (pc_okd _ _ P' Hm' _ _ _ Hi Hp). exact Z.
+Qed.
+Print Assumptions C02_fallback_owner_closed.
 
 (* ---------------- C03: truthfulness of Commit's answer under faults ---------------- *)
 Theorem C03_truthful : forall evs s T, run evs = Some s -> hasm s T -> classic s T ->
@@ -320,6 +339,14 @@ Example fallback_err_primary_unanswered_accepted : reject_of
     EPwSend 1 S0 10 [11] true false (S0 + 2) 0 []; EPwDeliver 1 S0 [11] (PwOk 0 0); EPwReply 1 S0 [11] (PwOk 0 0);
     EPwSend 1 S0 10 [10] true false (S0 + 2) 0 [11]; EPwDeliver 1 S0 [10] (PwOk 0 0); ETold S0 TErr ] = None.
 Proof. vm_compute. reflexivity. Qed.
+Example fallback_owner_closed_hypotheses : exists s, run
+  [ ETso S0; EBegin 1 S0; ECommitCall S0 false; EMutations S0 10 [(10, OpPut); (11, OpPut)];
+    EPwSend 1 S0 10 [11] true false (S0 + 2) 0 []; EPwDeliver 1 S0 [11] (PwOk 0 0); EPwReply 1 S0 [11] (PwOk 0 0);
+    EPwSend 1 S0 10 [10] true false (S0 + 2) 0 [11]; EPwDeliver 1 S0 [10] (PwOk 0 0); ETold S0 TErr ] = Some s /\
+  hasm s S0 /\ F s S0 FTold = 3 /\ F s S0 FPcNeg = F s S0 FPcSent /\ F s S0 FTriedA <> 0 /\ F s S0 FFb <> 0.
+Proof.
+  eexists. split; [vm_compute; reflexivity |]. unfold hasm. repeat split; vm_compute; congruence.
+Qed.
 (* ... but, as in 2PC, no primary commit request may be outstanding *)
 Example fallback_err_with_pending_commit_rejected : reject_of
   [ ETso S0; EBegin 1 S0; ECommitCall S0 false; EMutations S0 10 [(10, OpPut); (11, OpPut)];
